@@ -27,6 +27,7 @@ type sDesc struct {
 	Type    string
 	Custom  bool
 	Foreign bool // emitted as TLeaf in Coq (custom Unmarshal with a fall-back schema); harness still descends
+	HasVal  bool // T or *T has a Validate() error method
 	rt      reflect.Type
 }
 
@@ -88,6 +89,9 @@ func sDescribe(t reflect.Type, stack []reflect.Type) *sDesc {
 		return &sDesc{Kind: "map", Elem: sDescribe(t.Elem(), stack), Type: t.String(), rt: t}
 	case reflect.Struct:
 		d := &sDesc{Kind: "struct", Type: t.String(), rt: t}
+		if _, ok := reflect.PointerTo(t).MethodByName("Validate"); ok {
+			d.HasVal = true
+		}
 		if reflect.PointerTo(t).Implements(sConfUnm) {
 			d.Custom = true
 			sCustomSet[t.String()] = true
